@@ -36,9 +36,23 @@ InQuick(c) == /\ c.len <= 65537
               \* the rarely interesting classes only at boundary lengths in quick
               /\ (c.cls \in {"period2", "period3", "period129", "ramp"} => c.len \in {5, 129, 130, 257, 4097, 65536})
 
+\* Ratio cases: the driver searches (by calling the real compressor) a length whose expected/stored ratio equals the
+\* target; targets come from the limits the model knows: the fixed MaxRatio (admitted at r, refused at r + 1) and the
+\* codec-bounded maxima below every entry of the adaptive table (sparse: one token byte stands for at most 130 zero
+\* bytes, so all-zero input runs through 127..130 -- all far below AdaptiveLimit(d, SPARSE) >= 500 and must be accepted)
+RatioCases == {[kind |-> "ratio", m |-> SPARSE, cls |-> "zeros", target |-> r] : r \in {126, 127, 128, 129, 130}}
+         \cup {[kind |-> "ratio", m |-> m, cls |-> cl, target |-> r] :
+                  m \in {ZLIB, BZIP2}, cl \in {"zeros", "run"}, r \in {MaxRatio - 1, MaxRatio, MaxRatio + 1}}   \* (lzma-rs never exceeds ~40:1)
+ASSUME \A d \in {100, 512, 513, 4096, 4097, 65536, 65537} : AdaptiveLimit(d, SPARSE) > 130
+\* History cases: the same unit is decompressed `calls` times in one process; the cumulative volume passes every session
+\* budget of security.rs (strict 100 MB, default 1 GiB in both tiers; permissive 16 GiB in thorough)
+HistCases == {[kind |-> "hist", m |-> SPARSE, cls |-> "zeros", len |-> 2097152, calls |-> IF Thorough THEN 8300 ELSE 600],
+              [kind |-> "hist", m |-> ZLIB, cls |-> "text", len |-> 2097152, calls |-> 600],
+              [kind |-> "hist", m |-> BZIP2, cls |-> "text", len |-> 1048577, calls |-> IF Thorough THEN 1100 ELSE 120]}
+
 CaseSet == IF Thorough THEN Full ELSE {c \in Full : InQuick(c)} \cup QuickBig
 ASSUME QuickBig \subseteq Full
-Cases == SetToSeq(CaseSet)
+Cases == SetToSeq(CaseSet) \o SetToSeq(RatioCases) \o SetToSeq(HistCases)
 \* Codec declares state variables; the generator is a constant-level evaluation with a trivial behaviour
 GOne(n) == {1}
 GInit == CInitWith({0}, {0}, GOne)
